@@ -100,5 +100,77 @@ theorem FedInv.run (E : Env T H A R) : ∀ (as : List (Act T)) (s : CState T H A
 theorem FedInv.init (E : Env T H A R) : FedInv E ({} : CState T H A R) := by
   intro f hf; cases hf
 
+/-! ### third review (audit L1): the results fed are results `exec` can give, so the handler's filters apply -/
+
+theorem Fed.allCmds {Q : Cmd T H A R → Prop} {L : Resp T R → Prop} {p q : P T H A R} {rs : List (Answer T H A R)}
+    (hf : Fed p rs q) : AllCmds Q L p → (∀ a ∈ rs, Rok a.1 a.2) → (∀ a ∈ rs, Q a.1) ∧ AllCmds Q L q := by
+  induction hf with
+  | nil p => intro h _; exact ⟨(by intro a ha; cases ha), h⟩
+  | cons c k r rs q _ ih =>
+    intro h hr
+    cases h with
+    | cmd _ _ hq hk =>
+      have := ih (hk r (hr ⟨c, r⟩ (List.mem_cons_self ..))) (fun a ha => hr a (List.mem_cons_of_mem _ ha))
+      refine ⟨?_, this.2⟩
+      intro a ha
+      rcases List.mem_cons.mp ha with h | h
+      · subst h; exact hq
+      · exact this.1 a h
+
+/-- invariant: results fed are results `exec` can give -/
+def FedInv2 (E : Env T H A R) (s : CState T H A R) : Prop :=
+  ∀ f ∈ s.pool, ∃ rs, Fed (handler E f.jar f.id f.req) rs f.prog ∧ ∀ a ∈ rs, Rok a.1 a.2
+
+theorem FedInv2.step (E : Env T H A R) (s : CState T H A R) (a : Act T) (inv : FedInv2 E s) : FedInv2 E (stepC E s a) := by
+  cases a with
+  | arrive rq =>
+    intro f hf
+    simp only [stepC] at hf
+    rcases List.mem_append.mp hf with hf | hf
+    · exact inv f hf
+    · simp only [List.mem_singleton] at hf; subst hf
+      exact ⟨[], Fed.nil _, by intro a ha; cases ha⟩
+  | cmd i =>
+    simp only [stepC]
+    cases hi : s.pool[i]? with
+    | none => exact inv
+    | some f =>
+      simp only
+      obtain ⟨rs, hfed, hown⟩ := inv f (List.mem_of_getElem? hi)
+      cases hp : f.prog with
+      | ret r => exact inv
+      | cmd c k =>
+        simp only
+        rw [hp] at hfed
+        intro g hg
+        rcases List.mem_or_eq_of_mem_set hg with h | h
+        · exact inv g h
+        · subst h
+          refine ⟨rs ++ [⟨c, (exec s.db c).2⟩], hfed.snoc _, ?_⟩
+          intro a ha
+          rcases List.mem_append.mp ha with ha | ha
+          · exact hown a ha
+          · simp only [List.mem_singleton] at ha; subst ha
+            exact exec_rok s.db c
+  | deliver i =>
+    simp only [stepC]
+    cases hi : s.pool[i]? with
+    | none => exact inv
+    | some f =>
+      simp only
+      cases hp : f.prog with
+      | cmd c k => exact inv
+      | ret r => exact fun g hg => inv g (List.mem_of_mem_eraseIdx hg)
+  | finish j n => exact inv
+  | write j n => exact inv
+  | timeout j n => exact inv
+
+theorem FedInv2.run (E : Env T H A R) : ∀ (as : List (Act T)) (s : CState T H A R), FedInv2 E s → FedInv2 E (runC E s as) := by
+  intro as
+  induction as with
+  | nil => intro s h; exact h
+  | cons a as ih => intro s h; exact ih _ (FedInv2.step E s a h)
+
+
 end
 end ServerCmd
